@@ -126,8 +126,10 @@ Icpt ==
 SlD == 2 * SlW
 Thr(w) == MulDiv(w, pr.tn, pr.td)                    \* tol * w
 \* the model's values decide the pre-check beyond the slack ...
-PreSure  == kk = LastK \/ allz \/ (wm > SlD /\ dw + SlD < Thr(wm - SlD))
-PreNever == kk # LastK /\ ~allz /\ wm > SlD /\ dw - SlD > Thr(wm + SlD) + 1
+\* (all-zero centred targets: every quantity of the run is exactly zero in the code as well, so w_max = 0 fires)
+ZeroTarget == \A i \in 1..NN(pr) : YNum(pr)[i] = 0
+PreSure  == kk = LastK \/ allz \/ ZeroTarget \/ (wm > SlD /\ dw + SlD < Thr(wm - SlD))
+PreNever == kk # LastK /\ ~allz /\ ~ZeroTarget /\ wm > SlD /\ dw - SlD > Thr(wm + SlD) + 1
 \* ... and the logged operands decide it as the code does (d_w_max / w_max < tol), at 10^-9 where d_w_max fits
 LogPreSure(ev) ==
   \/ kk = LastK
